@@ -94,9 +94,16 @@ def _mk_body(mod, ctx, res, known_sigs, shrink_cap):
             res.rejected += 1
         for c in info.classes:
             res.classes[c] += 1
+        for k, v in info.extra.items():
+            res.extra[k] = res.extra.get(k, 0) + v
         if info.nontrivial:
             key = info.key if info.key is not None else jsonx.canon(case)
-            res.nontrivial.add(_h(key if isinstance(key, str) else jsonx.canon(key)))
+            key = key if isinstance(key, str) else jsonx.canon(key)
+            if info.subkeys is not None:
+                for sk in info.subkeys:
+                    res.nontrivial.add(_h(key + '|' + str(sk)))
+            else:
+                res.nontrivial.add(_h(key))
             if len(res.samples) < 3:
                 res.samples.append(jsonx.plain(case))
     return body
